@@ -240,6 +240,77 @@ theorem tags_pin_hist (cfg : Cfg) (steps : List Step) : ∀ (x : TT), Inv cfg x 
 
 example : ("t", 1) ∈ (step exCfg exTable (.tag "t" 1)).tags ∧ 1 ∈ versions exTable.st.store := by decide
 
+/-- `Tags::get_version` / `checkout_version("<tag>")`: the version a tag name resolves to -/
+def tagVersion (x : TT) (t : String) : Option Nat := (x.tags.find? (fun e => e.1 == t)).map (·.2)
+
+theorem hasTag_of_tagVersion {x : TT} {t : String} {v : Nat} (h : tagVersion x t = some v) : hasTag x t = true := by
+  unfold tagVersion at h
+  cases hf : x.tags.find? (fun e => e.1 == t) with
+  | none => rw [hf] at h; cases h
+  | some e =>
+    simp only [hasTag, List.any_eq_true]
+    exact ⟨e, List.mem_of_find?_eq_some hf, by have := List.find?_some hf; simpa using this⟩
+
+theorem find_filter_ne (l : List (String × Nat)) (t t' : String) (hne : (t' == t) = false) :
+    (l.filter (fun e => e.1 != t')).find? (fun e => e.1 == t) = l.find? (fun e => e.1 == t) := by
+  induction l with
+  | nil => rfl
+  | cons a rest ih =>
+    by_cases ha : (a.1 == t) = true
+    · have hk : (a.1 != t') = true := by
+        have e1 : a.1 = t := by simpa using ha
+        simp only [bne, Bool.not_eq_true', beq_eq_false_iff_ne, ne_eq]
+        intro e2; rw [e1] at e2; subst e2; simp at hne
+      simp [hk, ha]
+    · have ha' : (a.1 == t) = false := by cases hx : a.1 == t <;> simp_all
+      by_cases hk : (a.1 != t') = true
+      · simp only [List.filter_cons, hk, if_true, List.find?_cons, ha']; exact ih
+      · have hk' : (a.1 != t') = false := by cases hx : a.1 != t' <;> simp_all
+        simp only [List.filter_cons, hk', Bool.false_eq_true, if_false, List.find?_cons, ha']; exact ih
+
+/-- **tag_lookup_stable.**  A tag name keeps resolving to the same version until that tag is deleted: `Tags::create`
+    refuses an existing name, nothing else writes tag files (refs.rs; C09 `tag_untouched`).  With `tags_pin_hist`: a checkout
+    BY TAG returns the same table state through every history. -/
+theorem tag_lookup_stable (cfg : Cfg) (steps : List Step) : ∀ (x : TT) (t : String) (v : Nat),
+    tagVersion x t = some v → (∀ a ∈ steps, a.untags t = false) → tagVersion (run cfg x steps) t = some v := by
+  induction steps with
+  | nil => intro x t v h _; exact h
+  | cons a rest ih =>
+    intro x t v h hu
+    refine ih _ t v ?_ (fun b hb => hu b (by simp [hb]))
+    have hua := hu a (by simp)
+    cases a with
+    | prog p => exact h
+    | cleanup pol dsv =>
+      simp only [step]
+      split <;> exact h
+    | tag t' v' =>
+      simp only [step]
+      split
+      · exact h
+      · rename_i hc
+        have hc' : hasTag x t' = false := by
+          cases hx : hasTag x t' <;> simp_all
+        have hne : (t' == t) = false := by
+          cases hx : t' == t with
+          | false => rfl
+          | true =>
+            have : t' = t := by simpa using hx
+            subst this
+            rw [hasTag_of_tagVersion h] at hc'; cases hc'
+        unfold tagVersion at h ⊢
+        simp only [List.find?_cons, hne]
+        exact h
+    | untag t' =>
+      simp only [Step.untags] at hua
+      unfold tagVersion at h ⊢
+      simp only [step]
+      rw [find_filter_ne x.tags t t' hua]
+      exact h
+    | foreign => exact h
+
+example : tagVersion (run exCfg exTable [.tag "t" 1, .tag "t" 2, .cleanup exAll 2, .untag "u"]) "t" = some 1 := by decide
+
 /-! ## the property at full strength, the defective region, the counterexample -/
 
 /-- C06 for EVERY version that can be checked out — attached or detached — "as long as v itself has not been removed"
